@@ -869,7 +869,7 @@ pub fn engine_suite(ctx: &Ctx) -> ShardOut {
 
     // ---- 1a. a few histories with thousands of entries (thresholds such as 1024 or 4096 in
     //          capacities, lengths and single-call eviction counts), native builds only
-    if !cfg!(miri) && ctx.shard < (if props.needs_probes() { 1 } else { 2 }) && ctx.variant != "valgrind" && ctx.variant != "asan" {
+    if !cfg!(miri) && ctx.shard < (if props.needs_probes() { 1 } else { 2 }) && ctx.variant != "valgrind" && ctx.variant != "asan" && (ctx.variant != "dbg-talloc" || ctx.thorough) {
         for &kind in &kinds {
             let (cfg, ops, uni) = huge_history(kind, ctx.shard as usize, &mut rng);
             let kt = if prop == "C04" || ctx.shard == 0 { KeyType::Tracked } else { KeyType::Str };
